@@ -57,7 +57,7 @@ def run(run, P):
             n += 1
             run.instance('R-TIMER-REC', '%s: arms the context timer' % name)
         solve(f, Env(), on_event, None, keys, R, key_fn=lambda e: e.ts.get('rec', ()))
-    run.require(n >= (2 if run.cfg == 'base' else 0) or run.fixture_mode, 'R-TIMER-REC: fewer than 2 places that arm the context timerfd found')
+    run.require_count(n >= (2 if run.cfg == 'base' else 0) or run.fixture_mode, 'R-TIMER-REC: fewer than 2 places that arm the context timerfd found')
 
 
 BASE_FIELD = 'sendqueue_basetime'
@@ -113,4 +113,4 @@ def run_base(run, P):
             n += 1
             run.instance('R-TIMER-REC', '%s: %s only with the queue known empty (or inside the adjuster)' % (name, short(sev['e'])[:50]))
         solve(f, Env(), on_event, None, keys, R, key_fn=lambda e: tuple(e.nullf(q) for q in sorted(qpaths)))
-    run.require(n >= 3 or run.fixture_mode or run.cfg != 'base', 'R-TIMER-REC(queue base): fewer than 3 writers of %s found' % BASE_FIELD)
+    run.require_count(n >= 3 or run.fixture_mode or run.cfg != 'base', 'R-TIMER-REC(queue base): fewer than 3 writers of %s found' % BASE_FIELD)
